@@ -14,8 +14,8 @@ RULE = ("random surfaces of 1-3 D x 11 numeric dtypes (floats as exact quarter-i
         "3-valued surfaces on grids <=2x3 x all placements of up to two markers x cross/box. Non-trivial: >=1 marker and "
         "surface not constant")
 NOT_PROVED = ["std::priority_queue is modelled by its specification (top = greatest under the re-translated operator<)",
-              "region connectivity to own marker / exactness of the lines image are checked on every case against the "
-              "definition, not yet stated as Coq theorems"]
+              "exactness of the lines image is checked on every case against the definition, not yet stated as a Coq theorem "
+              "(markers kept, every labelled pixel linked to its own marker, the rest 0 ARE theorems)"]
 BUDGET_S = {"quick": 110, "thorough": 1200}
 DTYPES = ["uint8", "int8", "uint16", "int16", "uint32", "int32", "uint64", "int64", "float32", "float64"]
 
